@@ -604,47 +604,78 @@ def buildAttrs (opq : Nat → Nat → Str) (s : PState) : List RawAttr → List 
     checkName n
     buildAttrs opq s r (setAttr ⟨ns, n, v⟩ acc)
 
-/-- one iteration of the `while self.axml.is_valid()` loop body, after `next(self.axml)` -/
-def step (opq : Nat → Nat → Str) (s : PState) (p : Printer) : Except String Printer :=
+/-- a chunk event with its strings resolved.  Fields that the printer evaluates only after looking at its own
+    stack are carried as `Except` so that exceptions keep their order. -/
+inductive REvent where
+  | skip                                                       -- START_TAG with an empty name, or no event
+  | start (hasComment commentOk : Bool) (body : Except String (Str × Str × List Attr))   -- (tag, ns, attributes)
+  | end_ (nameEmpty : Bool) (nsRes : Except String Unit)
+  | text (t : Except String Str)
+  | endDoc
+
+/-- the part of one loop iteration that reads the parser (string pool, namespaces, `_fix_name`, `_fix_value`) -/
+def resolve (opq : Nat → Nat → Str) (s : PState) : Except String REvent :=
   match s.event with
   | .start => do
     let name ← s.pool.get s.name
-    if name.isEmpty then .ok p else
+    if name.isEmpty then .ok .skip else
     let ns ← nsString s s.nsUri
     let (ns, name) ← fixName s ns name
     let comment ← (if s.comment = noEntry then .ok [] else s.pool.get s.comment)
-    if !comment.isEmpty ∧ p.hasRoot ∧ p.stack.isEmpty then .error "IndexError" else
-    if !comment.isEmpty ∧ p.hasRoot ∧ !(xmlCompatible comment ∧ !comment.contains 0x2D) then .error "unmodelled:comment" else
-    let _ ← nsmap s
-    checkUri ns
-    checkName name
-    let attrs ← buildAttrs opq s s.attrs []
-    let o : Open := ⟨name, ns, attrs, []⟩
-    if !p.hasRoot then .ok { p with hasRoot := true, stack := [o] }
-    else if p.stack.isEmpty then .ok { p with stop := true }
-    else .ok { p with stack := o :: p.stack }
-  | .end_ =>
+    let body : Except String (Str × Str × List Attr) := do
+      let _ ← nsmap s
+      checkUri ns
+      checkName name
+      let attrs ← buildAttrs opq s s.attrs []
+      .ok (name, ns, attrs)
+    .ok (.start (!comment.isEmpty) (xmlCompatible comment && !comment.contains 0x2D) body)
+  | .end_ => do
+    let name ← s.pool.get s.name
+    .ok (.end_ name.isEmpty ((nsString s s.nsUri).map fun _ => ()))
+  | .text => .ok (.text (s.pool.get s.name))
+  | .endDoc => .ok .endDoc
+  | .none => .ok .skip
+
+/-- the part of one loop iteration that works on the printer's element stack -/
+def applyEv : REvent → Printer → Except String Printer
+  | .skip, p => .ok p
+  | .start hasComment commentOk body, p =>
+    if hasComment ∧ p.hasRoot ∧ p.stack.isEmpty then .error "IndexError" else
+    if hasComment ∧ p.hasRoot ∧ !commentOk then .error "unmodelled:comment" else
+    match body with
+    | .error e => .error e
+    | .ok (name, ns, attrs) =>
+      let o : Open := ⟨name, ns, attrs, []⟩
+      if !p.hasRoot then .ok { p with hasRoot := true, stack := [o] }
+      else if p.stack.isEmpty then .ok { p with stop := true }
+      else .ok { p with stack := o :: p.stack }
+  | .end_ nameEmpty nsRes, p =>
     match p.stack with
-    | [] => do
-      let _ ← s.pool.get s.name
-      let _ ← nsString s s.nsUri
-      .error "IndexError"
-    | o :: rest => do
-      let name ← s.pool.get s.name
-      if name.isEmpty then .ok p else
-      let _ ← nsString s s.nsUri
-      match rest with
-      | [] => .ok { p with root := some o.close, stack := [] }
-      | par :: rest' => .ok { p with stack := { par with kids := o.close :: par.kids } :: rest' }
-  | .text =>
+    | [] => (match nsRes with | .error e => .error e | .ok _ => .error "IndexError")
+    | o :: rest =>
+      if nameEmpty then .ok p else
+      match nsRes with
+      | .error e => .error e
+      | .ok _ =>
+        match rest with
+        | [] => .ok { p with root := some o.close, stack := [] }
+        | par :: rest' => .ok { p with stack := { par with kids := o.close :: par.kids } :: rest' }
+  | .text t, p =>
     match p.stack with
     | [] => .error "IndexError"
-    | o :: rest => do
-      let t ← s.pool.get s.name
-      if !xmlCompatible t then .error "ValueError" else
-      .ok { p with stack := { o with kids := addText t o.kids } :: rest }
-  | .endDoc => .ok { p with stop := true }
-  | .none => .ok p
+    | o :: rest =>
+      match t with
+      | .error e => .error e
+      | .ok t =>
+        if !xmlCompatible t then .error "ValueError" else
+        .ok { p with stack := { o with kids := addText t o.kids } :: rest }
+  | .endDoc, p => .ok { p with stop := true }
+
+/-- one iteration of the `while self.axml.is_valid()` loop body, after `next(self.axml)` -/
+def step (opq : Nat → Nat → Str) (s : PState) (p : Printer) : Except String Printer :=
+  match resolve opq s with
+  | .error e => .error e
+  | .ok ev => applyEv ev p
 
 /-- attach the elements that are still open to their parents (lxml appended them when they were opened) -/
 def collapseAux (child : Node) : List Open → Node
